@@ -333,6 +333,12 @@ func (w *world) exec(op M) {
 		tb := w.table(opInt(op, "t"))
 		tb.AddSeparator()
 		rr := tb.AllRows()
+		if len(rr) != tb.NRows() || len(rr) == 0 || !rr[len(rr)-1].IsSeparator() {
+			// the library's row listing does not end in the separator just added (the grid facet, observed
+			// next, shows that to the model): the driver's own book-keeping goes on with a stand-in row object
+			w.addRowObj(tabular.NewRow(), nil)
+			break
+		}
 		w.addRowObj(rr[len(rr)-1], nil)
 	case "appendrow":
 		r := w.table(opInt(op, "t")).AppendNewRow()
